@@ -228,7 +228,7 @@ Lemma load_dump_trims : forall e s sn pre post,
   enabled_ver (nd s') = s_ver sn /\ applied (nd s') = eidx (s_e1 sn) /\
   commit (nd s') = commit (nd s) /\ replay_idx (nd s') = replay_idx (nd s) /\
   self_ver (nd s') = self_ver (nd s) /\ exc s' = exc s /\ sr (nd s') = sr (nd s) /\
-  meta_commit (nd s') = meta_commit (nd s).
+  meta_commit (nd s') = meta_commit (nd s) /\ tnow s' = tnow s.
 Proof.
   intros e s sn pre post Hst Hv Hl Hwf. cbv zeta. unfold load_dump. rewrite Hst.
   destruct (self_ver (nd s) <? s_ver sn) eqn:Ev; [lia|]. cbn [orb].
@@ -237,7 +237,7 @@ Proof.
   assert (F1 : hist (nd s1) = s_hist sn /\ enabled_ver (nd s1) = s_ver sn /\
                commit (nd s1) = commit (nd s) /\ replay_idx (nd s1) = replay_idx (nd s) /\
                self_ver (nd s1) = self_ver (nd s) /\ exc s1 = exc s /\ sr (nd s1) = sr (nd s) /\
-               meta_commit (nd s1) = meta_commit (nd s)).
+               meta_commit (nd s1) = meta_commit (nd s) /\ tnow s1 = tnow s).
   { subst s1. unfold upd. cbn. repeat split; auto. }
   clearbody s1.
   rewrite Hl1. rewrite Hl in Hwf.
@@ -254,7 +254,7 @@ Proof.
   assert (F2 : hist (nd s2) = s_hist sn /\ enabled_ver (nd s2) = s_ver sn /\
                commit (nd s2) = commit (nd s) /\ replay_idx (nd s2) = replay_idx (nd s) /\
                self_ver (nd s2) = self_ver (nd s) /\ exc s2 = exc s /\ sr (nd s2) = sr (nd s) /\
-               meta_commit (nd s2) = meta_commit (nd s)).
+               meta_commit (nd s2) = meta_commit (nd s) /\ tnow s2 = tnow s).
   { subst s2. unfold upd. cbn. exact F1. }
   clearbody s2.
   rewrite Hl2. rewrite !entry_eqb_refl. cbn [andb negb].
@@ -263,25 +263,25 @@ Proof.
                 enabled_ver (nd S0) = s_ver sn /\ applied (nd S0) = eidx (s_e1 sn) /\
                 commit (nd S0) = commit (nd s) /\ replay_idx (nd S0) = replay_idx (nd s) /\
                 self_ver (nd S0) = self_ver (nd s) /\ exc S0 = exc s /\ sr (nd S0) = sr (nd s) /\
-                meta_commit (nd S0) = meta_commit (nd s)).
-  { subst S0. unfold upd. cbn. destruct F2 as (G1 & G2 & G3 & G4 & G5 & G6 & G7 & G8).
+                meta_commit (nd S0) = meta_commit (nd s) /\ tnow S0 = tnow s).
+  { subst S0. unfold upd. cbn. destruct F2 as (G1 & G2 & G3 & G4 & G5 & G6 & G7 & G8 & G9).
     repeat split; auto. }
   destruct (dyn (cf e)); [|exact HS0].
   match goal with |- context [update_cluster ?new S0] => set (NEW := new) end.
-  destruct (update_cluster_frame NEW S0) as (Hf & _ & Hx & _).
+  destruct (update_cluster_frame NEW S0) as (Hf & _ & Hx & Htn).
   unfold same_app in Hf. destruct Hf as (B1 & B2 & B3 & B4 & B5 & B6 & B7 & B8 & B9 & B10).
-  destruct HS0 as (A1 & A2 & A3 & A4 & A5 & A6 & A7 & A8 & A9 & A10).
+  destruct HS0 as (A1 & A2 & A3 & A4 & A5 & A6 & A7 & A8 & A9 & A10 & A11).
   repeat split; congruence.
 Qed.
 
 (* C06_first_tick_rebuilds: a node restarted from a journal that contains the dump's two
    entries (anywhere: killed before or after the journal was trimmed) keeps everything from the
    dump position on (the D10 repair), takes the dump's state, then replays applied+1 .. commit *)
-Lemma first_tick_rebuilds : forall e me oth sv d sn pre post,
+Lemma first_tick_rebuilds : forall e0 e me oth sv d sn pre post,
   file_dump (cf e) = true ->
   d_dump d = Some (Good sn) -> s_ver sn <= sv ->
   d_log d = pre ++ s_e0 sn :: s_e1 sn :: post -> log_wf (d_log d) ->
-  let n0 := init_from_disk e me oth sv d in
+  let n0 := init_from_disk e0 me oth sv d in
   let s1 := tick_load e (start_S e n0) in
   let s2 := fst (apply_entries e s1) in
   let es := if eidx (s_e1 sn) <? d_meta d
@@ -293,9 +293,9 @@ Lemma first_tick_rebuilds : forall e me oth sv d sn pre post,
   applied (nd s2) = eidx (s_e1 sn) + N.of_nat (snd (replay sv es)) /\
   exc s2 = 0.
 Proof.
-  intros e me oth sv d sn pre post Hfd Hdump Hv Hl Hwf n0 s1 s2 es.
+  intros e0 e me oth sv d sn pre post Hfd Hdump Hv Hl Hwf n0 s1 s2 es.
   assert (Hne : d_log d <> []) by (rewrite Hl; destruct pre; discriminate).
-  destruct (restart_state e me oth sv d Hne) as
+  destruct (restart_state e0 me oth sv d Hne) as
     (R1 & R2 & R3 & R4 & R5 & R6 & R7 & R8 & R9 & R10 & R11 & R12 & R13 & R14 & R15 & R16 & R17 & _).
   fold n0 in R1, R2, R3, R4, R9, R13, R14, R17.
   set (s0 := start_S e n0).
@@ -305,7 +305,7 @@ Proof.
   assert (Hl0 : log (nd s0) = pre ++ s_e0 sn :: s_e1 sn :: post) by (rewrite H0, R1; auto).
   assert (Hwf0 : log_wf (log (nd s0))) by (rewrite H0, R1; auto).
   pose proof (load_dump_trims e s0 sn pre post Hst Hv0 Hl0 Hwf0) as Hld. cbv zeta in Hld.
-  destruct Hld as (L1 & L2 & L3 & L4 & L5 & L6 & L7 & L8 & L9 & L10).
+  destruct Hld as (L1 & L2 & L3 & L4 & L5 & L6 & L7 & L8 & L9 & L10 & L11).
   assert (Hs1 : s1 = upd (fun n => n <| need_load := false |>) (load_dump e false s0)).
   { subst s1. unfold tick_load. fold s0. rewrite H0, R13, Hfd. reflexivity. }
   assert (A1 : log (nd s1) = s_e0 sn :: s_e1 sn :: post) by (rewrite Hs1; exact L1).
@@ -340,9 +340,9 @@ Qed.
 
 (* without a dump (no dump file configured, or none written yet): the journal is replayed from
    index 2 *)
-Lemma first_tick_no_dump : forall e me oth sv d,
+Lemma first_tick_no_dump : forall e0 e me oth sv d,
   d_log d <> [] -> (file_dump (cf e) = false \/ d_dump d = None) ->
-  let n0 := init_from_disk e me oth sv d in
+  let n0 := init_from_disk e0 me oth sv d in
   let s1 := tick_load e (start_S e n0) in
   let s2 := fst (apply_entries e s1) in
   let es := if 1 <? d_meta d then get_entries (d_log d) (Some 2) (Some (d_meta d - 1)) None else [] in
@@ -350,8 +350,8 @@ Lemma first_tick_no_dump : forall e me oth sv d,
   hist (nd s2) = fst (replay sv es) /\ applied (nd s2) = 1 + N.of_nat (snd (replay sv es)) /\
   log (nd s2) = d_log d.
 Proof.
-  intros e me oth sv d Hne Hnd n0 s1 s2 es.
-  destruct (restart_state e me oth sv d Hne) as
+  intros e0 e me oth sv d Hne Hnd n0 s1 s2 es.
+  destruct (restart_state e0 me oth sv d Hne) as
     (R1 & R2 & R3 & R4 & R5 & R6 & R7 & R8 & R9 & R10 & R11 & R12 & R13 & R14 & R15 & R16 & R17 & _).
   fold n0 in R1, R2, R3, R4, R9, R13, R14, R15, R17.
   assert (Hs1 : s1 = upd (fun n => n <| need_load := false |>) (start_S e n0)).
